@@ -1,7 +1,70 @@
 import CB.Driver.Util
+import CB.Model.Der
+import CB.Model.Rlp
+namespace CB.Der
+open CB
+
+def decTok : Dec → String
+  | .ok v => limbsHex v
+  | .err => "err"
+  | .panic => "panic"
+
+def optBytesTok : Option (List Nat) → String
+  | some b => bytesToTok b
+  | none => "err"
+
+/-- `L1 ;; L0`: the model of the code, then what the property demands -/
+def two (l1 l0 : Dec) : String := s!"{decTok l1} ;; {decTok l0}"
+
+/-- widths for which the harness has the DER / RLP ops monomorphised -/
+def derWidth (n : Nat) : Bool := [1, 2, 3, 4, 6, 7, 8, 16, 32, 128].contains n
+def rlpDecWidth (n : Nat) : Bool := [1, 2, 3, 4].contains n
+
+def withVal (n v : String) (ok : Nat → Bool) (f : Nat → List Nat → String) : Option String :=
+  match n.toNat?, hexToNat? v with
+  | some n, some v =>
+    if !ok n then some "unsupported-width"
+    else if v ≥ B ^ n then badArgs
+    else some (f n (toLimbs n v))
+  | _, _ => badArgs
+
+def withBytes (n b : String) (ok : Nat → Bool) (f : Nat → List Nat → String) : Option String :=
+  match n.toNat?, tokToBytes? b with
+  | some n, some b => if !ok n then some "unsupported-width" else some (f n b)
+  | _, _ => badArgs
+
+end CB.Der
+
 namespace CB
+open CB.Der CB.Rlp
 
 /-- operations of property C18 (op names start with `c18.`) -/
-def dispatchC18 : Dispatch := fun _ _ => none
+def dispatchC18 : Dispatch := fun op args =>
+  match op, args with
+  | "c18.der.to_der", [n, v] => withVal n v derWidth fun n a => optBytesTok (derToDer n a)
+  | "c18.der.len", [n, v] => withVal n v derWidth fun n a =>
+      match derEncodedLen n a, derValueLen n a with
+      | some e, some l => s!"{e} {l}"
+      | _, _ => "err"
+  | "c18.der.encode_to_slice", [n, v, cap] =>
+      match cap.toNat? with
+      | some cap => withVal n v derWidth fun n a => optBytesTok (derEncodeToSlice n a cap)
+      | none => badArgs
+  | "c18.der.from_der", [n, b] => withBytes n b derWidth fun n bs =>
+      two (derFromDer n bs) (derSpecFromDer n bs)
+  | "c18.der.any_from_der", [n, b] => withBytes n b derWidth fun n bs =>
+      two (derAnyFromDer n bs) (failClosed (derAnyFromDer n bs))
+  | "c18.der.any", [n, t, b] =>
+      match tokToBytes? t with
+      | some [t] => withBytes n b derWidth fun n bs => two (derFromAny n t bs) (failClosed (derFromAny n t bs))
+      | _ => badArgs
+  | "c18.der.uintref", [n, b] => withBytes n b derWidth fun n bs =>
+      two (derFromUintRefNew n bs) (failClosed (derFromUintRefNew n bs))
+  | "c18.rlp.encode", [n, v] => withVal n v derWidth fun n a => bytesToTok (rlpEncode n a)
+  | "c18.rlp.decode", [n, b] => withBytes n b rlpDecWidth fun n bs =>
+      two (rlpDecode n bs) (rlpSpecDecode n bs)
+  | "c18.rlp.list1", [n, v] => withVal n v rlpDecWidth fun n a =>
+      s!"{bytesToTok (rlpList1 n a)} {decTok (rlpDecode n (rlpEncode n a))}"
+  | _, _ => none
 
 end CB
